@@ -15,6 +15,7 @@ names that already end in / contain the suffix strings `_ket` and `_bra`.
 """
 from __future__ import annotations
 
+import json
 import random
 
 import numpy as np
@@ -315,6 +316,89 @@ def _graph_check(ctx, case, tag, rho, psi, ttno, names, mo_trace, mo_ttno, rid=R
         _model_value(ctx, case, tag, what, mo, ops, got)
 
 
+def _tprod_check(ctx, case, tag, rho, psi, names, rid=ROOT_ID):
+    """Stream `tprod` (value-level correspondence of tensor_product_expectation_value): for products on 0, 1, 2, n and a
+    random number of sites the Lean model (`Ttndo.tensorProductExpectationValue`: EVERY factor absorbed into the ket copy
+    of its site, then trace_ttndo) gives the binding record; contracted over the TTNDO's tensors and the single-site
+    operators it must reproduce the library's number (integer tensors: the Lean model evaluates the record itself,
+    exactly).  The routine is called twice on the same object: it must not modify it (second value == first)."""
+    import random
+    from pytreenet.operators.tensorproduct import TensorProduct
+    from harness.props.c04 import _einsum_from_model
+    inv = {v: k for k, v in names.items()}
+    n = len(names)
+    num = {rid: 0}
+    for nm, i in inv.items():
+        num[nm + "_ket"] = 2 * i + 1
+        num[nm + "_bra"] = 2 * i + 2
+    operands = []
+    for nid, nd in rho.nodes.items():
+        if nid not in num:
+            return
+        k = num[nid]
+        t = rho.tensors[nid]
+        nbs = ([] if nd.parent is None else [nd.parent]) + list(nd.children)
+        if k == 0:
+            labs = ["BK0" if num[c] % 2 == 1 else "BB0" for c in nbs]
+            operands.append((t.reshape(t.shape[:-1]), labs))
+        elif k % 2 == 1:
+            operands.append((t, [f"gK{k}_{num[x]}" for x in nbs] + [f"gKP{k}"]))
+        else:
+            operands.append((t, [f"gB{k - 1}_{max(num[x] - 1, 0)}" for x in nbs] + [f"gBP{k - 1}"]))
+    r = random.Random("tprod|" + json.dumps(case, sort_keys=True, default=str))
+    nr = np.random.default_rng(r.randrange(2 ** 32))
+    exact = bool(case.get("exact"))
+
+    def kids(i):
+        return ",".join(str(inv[c]) for c in psi.nodes[names[i]].children) or "-"
+    tree = f"{inv[psi.root_id]} " + " ".join(f"{i}:{kids(i)};-" for i in range(n))
+    sizes = sorted({0, 1, min(2, n), n, r.randint(0, n)})
+    plans, lines = [], []
+    for k in sizes:
+        sites = r.sample(range(n), k)
+        plans.append(sites)
+        lines.append(f"C16 tprod {','.join(map(str, sites)) or '-'} {tree}")
+    mos = ctx.lean.batch(lines)
+    for sites, mo in zip(plans, mos):
+        what = f"tprod on {len(sites) if len(sites) <= 2 else ('N' if len(sites) == n else 'k')} sites"
+        ctx.tally("graph", what)
+        if not mo.startswith("legs |"):
+            ctx.corr_fail(case, f"{tag} {what}: the model leaves free legs / fails: [{mo[:200]}]")
+            continue
+        ops, op_operands = {}, []
+        for i in sites:
+            d = rho.tensors[names[i] + "_ket"].shape[-1]
+            if exact:
+                o = nr.integers(-2, 3, size=(d, d)).astype(float)
+            else:
+                o = nr.standard_normal((d, d)) + 1j * nr.standard_normal((d, d))
+            ops[names[i]] = o
+            op_operands.append((o, [f"gOO{2 * i + 1}", f"gOI{2 * i + 1}"]))
+        allops = operands + op_operands
+        ref, prob = _einsum_from_model(mo, allops)
+        if prob:
+            ctx.corr_fail(case, f"{tag} {what}: {prob}")
+            continue
+        try:
+            got = complex(rho.tensor_product_expectation_value(TensorProduct(dict(ops))))
+            again = complex(rho.tensor_product_expectation_value(TensorProduct(dict(ops))))
+        except Exception:               # noqa: BLE001  (reported by the oracle)
+            continue
+        if again != got:
+            ctx.corr_fail(case, f"{tag} {what}: a second call on the same object gives {again!r}, the first gave {got!r} "
+                                f"(the routine modified the network)")
+            continue
+        scale = 1.0
+        for arr, _ in allops:
+            scale *= max(float(np.linalg.norm(arr)), 1e-300)
+        gtol, floor = (SINGLE_TOL, 1.0) if case.get("dtype") == "single" else (1e-9, 1e-6)
+        if abs(got - complex(ref)) > gtol * max(abs(complex(ref)), floor * scale):
+            ctx.corr_fail(case, f"{tag} {what}: library {got!r} differs from the contraction over the model's binding "
+                                f"record (every factor absorbed) {complex(ref)!r}")
+            continue
+        _model_value(ctx, case, tag, what, mo, allops, got)
+
+
 MAX_MODEL_SUM = 40000
 
 
@@ -437,6 +521,7 @@ def _case(ctx, case, model_out=None):
         # ---- stage B (graph): the model's global binding list of trace_ttndo / ttndo_ttno_expectation_value,
         #      evaluated by einsum on the real tensors, against the library's values
         _graph_check(ctx, case, tag, rho, psi, ttno, names, mo[2], mo[3], rid)
+        _tprod_check(ctx, case, tag, rho, psi, names, rid)
     else:
         # the documented refusal: a separate bra leg for a parent that is not the root
         inner = [x for x in order if psi.nodes[x].parent is not None and psi.nodes[x].children]
